@@ -131,3 +131,39 @@ def family_closure(tier, seed):
     out.append(closure_scenario("x_cl_two_b", "OOOOC", second_market=("OC", 100000)))
     out.append(closure_scenario("x_cl_two_c", "C", second_market=("OOC", 100000)))
     return out
+
+
+def exposure_replace(sid, side="LAY", price=1.5, new_price=50.0, size=10.0, limit=10.0, fill=True):
+    """an acknowledged resting order is re-priced; all three limits are set to `limit`"""
+    def bk(k):
+        # after the replacement rests, volume trades through its price so that it fills
+        trd = [[new_price, 400.0]] if (fill and k >= 5) else []
+        return {"11": _bk([[1.2, 50]], [[200.0, 50]], trd), "12": _bk([[3.0, 10]], [[3.4, 10]], [])}
+    ups = [{"pt": 1000 * k, "version": 1, "books": bk(k)} for k in range(8)]
+    script = {
+        "1.100000001|0|book": [{"op": "place", "o": "o1", "sel": 11, "side": side, "price": price, "size": size}],
+        "1.100000001|2000|book": [{"op": "replace", "o": "o1", "price": new_price}],
+    }
+    return {"id": sid, "cfg": {}, "markets": [{"id": "1.100000001", "event_id": "30000001", "market_type": "WIN", "winners": 1, "bsp": True, "persistence": True, "runners": [11, 12], "updates": ups}],
+            "strategies": [{"name": "A", "max_order_exposure": limit, "max_selection_exposure": limit, "max_market_exposure": limit, "max_live_trade_count": 1, "script": script}]}
+
+
+def family_exposure(tier, seed):
+    out = [exposure_replace("x_exp_lay_up"), exposure_replace("x_exp_lay_small", new_price=1.6), exposure_replace("x_exp_back", side="BACK", price=50.0, new_price=40.0, size=8.0),
+           exposure_replace("x_exp_lay_nofill", fill=False),
+           sp_lay_rounding("x_exp_sp_400"), sp_lay_rounding("x_exp_sp_3", sp=3.37, size=7.0, price=2.5)]
+    return out
+
+
+def sp_lay_rounding(sid, price=2.0, size=10.0, sp=400.0, limit=10.0):
+    """LAY limit order with MARKET_ON_CLOSE persistence carried to a very high starting price"""
+    ups = []
+    for k in range(3):
+        ups.append({"pt": 1000 * k, "version": 1, "books": {"11": _bk([[1.2, 50]], [[price + 0.5, 50]], []), "12": _bk([[3.0, 10]], [[3.4, 10]], [])}})
+    for k in range(3, 6):
+        ups.append({"pt": 1000 * k, "version": 2, "inplay": True, "bsp_rec": True, "bet_delay": 1,
+                    "rstat": {"11": ["ACTIVE", None, sp], "12": ["ACTIVE", None, 3.2]},
+                    "books": {"11": _bk([[1.2, 50]], [[price + 0.5, 50]], []), "12": _bk([[3.0, 10]], [[3.4, 10]], [])}})
+    script = {"1.100000001|0|book": [{"op": "place", "o": "o1", "sel": 11, "side": "LAY", "price": price, "size": size, "pers": "MARKET_ON_CLOSE"}]}
+    return {"id": sid, "cfg": {}, "markets": [{"id": "1.100000001", "event_id": "30000001", "market_type": "WIN", "winners": 1, "bsp": True, "persistence": True, "runners": [11, 12], "updates": ups}],
+            "strategies": [{"name": "A", "max_order_exposure": limit, "max_selection_exposure": limit, "max_live_trade_count": 1, "script": script}]}
